@@ -78,6 +78,22 @@ def gen_cases(tier, seed):
                     hsh = zlib.crc32(("%s|%s|%s|%s" % (dn, ct, order, conn)).encode("utf-8"))
                     p = {"y": 1990 + hsh % 40, "m": 1 + (hsh >> 6) % 12, "d": 1 + (hsh >> 10) % 28, "dow": (hsh >> 15) % 7}
                     cases.append({"dn": dn, "p": p, "cn": cn, "ct": ct, "h": h, "mi": mi, "o": order, "c": conn, "ts": C.iso(REFS[(hsh >> 18) % len(REFS)])})
+    # every weekday spelling (abbreviations with and without the dot, supported typos) next to a few clocks: fixed cases
+    import zlib
+    for wi, ws in enumerate(G.DOW):
+        for w in ws:
+            for dn in G.DAY_FORMS_SPELLED:
+                if (dn == "dow/am spelled") != (w in G.DOW_DE_SPELLINGS):
+                    if dn != "dow/spelled":
+                        continue
+                for cn, h, mi in (("H Uhr", 17, 0), ("H:MM", 9, 15), ("ham", 17, 0), ("HH:MM", 17, 30)):
+                    for order in ("day-clock", "clock-day"):
+                        for conn in G.COMPOSE_CONN:
+                            hsh = zlib.crc32(("%s|%s|%s|%s|%s" % (w, dn, cn, order, conn)).encode("utf-8"))
+                            if tier != "thorough" and (hsh + seed) % 4:
+                                continue
+                            cases.append({"dn": dn, "p": {"w": w, "dow": wi, "y": 2021, "m": 1, "d": 1}, "cn": cn, "h": h, "mi": mi, "o": order, "c": conn,
+                                          "ts": C.iso(REFS[hsh % len(REFS)])})
     r.shuffle(cases)
     return cases
 
@@ -85,7 +101,7 @@ def gen_cases(tier, seed):
 def run_case(case, ctx):
     ts = C.parse_ts(case["ts"])
     p = case["p"]
-    day = G.DAY_FORMS[case["dn"]](p)
+    day = (G.DAY_FORMS.get(case["dn"]) or G.DAY_FORMS_SPELLED[case["dn"]])(p)
     if case["cn"].startswith("pod/"):
         fn0, fl = G.POD_CLOCK[case["cn"][4:]]
         clock = "%s %s" % (fn0(case["h12"], case["mi"]), case["pod"])
